@@ -41,6 +41,12 @@ CHECKS = {
  "C14": dict(level="exploration", family="interlock", ref="6.12",
    technique="deterministic simulation: interlock triggers applied to seeded synced arrays; two-process interleaving at system-call granularity for the lock (first command parked by the file layer at a mutation index)",
    text="Each documented trigger (disk emptied / rewritten, file zeroed, parity deleted or halved, blocksize / hashsize changed, disk dropped from the configuration), alone or mixed with ordinary changes, must make sync fail with content and parity byte-identical, and proceed with its override. For the lock the first command is parked at seeded mutation indexes while a second command of every kind runs as a real second process: it must be refused with the 'already in use' diagnostic and issue no mutating call whenever the lock is held."),
+ "C10": dict(level="exploration", family="roundtrip", ref="6.8",
+   technique="deterministic simulation: array states reached by simulated histories (interrupted/partial syncs, scrubs, hash migration, marks) re-written and re-loaded; independent content decoder/encoder as reference model",
+   text="After every command of seeded histories test-rewrite must reproduce each content copy byte for byte, the independent decoder's view must equal list -l and status -G -l, and every copy alone must give the same dumps; content files synthesised by the independent encoder (validated byte-for-byte against every tool-written file of the run) with values at varint boundaries must be rewritten identically. The synthesis part is plain input generation."),
+ "C15": dict(level="exploration", family="scrubplan", ref="6.13",
+   technique="deterministic simulation: the clock is owned by the simulator, per-stripe ages come from history; the verified set is read off the io.c hand-over trace; plan predicates and bookkeeping checked against the decoded content",
+   text="Per-stripe check times are produced by syncs and scrubs at chosen simulated times (ties, 8 s granularity, backward clock steps), bad marks by injected silent errors, unsynced stripes by files changed after the sync. For every plan the set of verified stripes (from the trace, not from scrub's report) must satisfy the plan predicates, and the decoded content afterwards must show time refreshed / marks cleared exactly on stripes verified correct, bad exactly on silent errors, everything else untouched; 13 default scrubs 11 simulated days apart must cover a synced array."),
 }
 NA = [
  ("C02", "pure function of (nd, np, size, buffers, variant): no schedule, clock, fault, crash point or history for a simulator to own"),
